@@ -396,7 +396,7 @@ def _run_impl_cases(hcmd, cases, timeout):
                 viols.append(out[pos]); pos += 1
             if n < len(c):
                 # harness stopped inside this case (or before answering it at all)
-                res[ci] = (answers, viols, (rc, err[-3000:]))
+                res[ci] = (answers, viols, (rc, err[:3000] + ("\n...\n" + err[-9000:] if len(err) > 3000 else "")))
                 start = ci + 1
                 died = True
                 break
@@ -405,7 +405,7 @@ def _run_impl_cases(hcmd, cases, timeout):
             if rc != 0:
                 # died after the last answer (e.g. leak report at exit): blame the last case
                 a, v, _ = res[len(cases) - 1]
-                res[len(cases) - 1] = (a, v, (rc, err[-3000:]))
+                res[len(cases) - 1] = (a, v, (rc, err[:3000] + ("\n...\n" + err[-9000:] if len(err) > 3000 else "")))
             break
     return res
 
